@@ -100,45 +100,62 @@ pub fn run_check(prop: &str, tier: &str, base_seed: u64, verif_dir: &str) -> i32
     /* thorough batches are sized for 10-20 minutes on 16 workers */
     let scale: f64 = std::env::var("ESIM_SCALE").ok().and_then(|s| s.parse().ok()).unwrap_or(1.0) * if thorough { 6.0 } else { 1.0 };
     let findings = load_findings(&format!("{}/known_findings.json", verif_dir));
-    let mut jobs: Vec<Job> = vec![];
+    /* the job list is described, not materialised: thorough tiers run millions of plans */
+    #[derive(Clone)]
+    enum Desc {
+        Gen { world: &'static str, shape: &'static str, i: u64 },
+        Crash { base: usize, k: u64 },
+    }
+    let mut descs: Vec<Desc> = vec![];
+    let mut batch_sizes: Vec<usize> = vec![];
     for batch in &bs {
         let n = ((if thorough { batch.thorough } else { batch.quick }) as f64 * scale).ceil() as u64;
+        batch_sizes.push(n as usize);
         for i in 0..n {
-            jobs.push(make_job(batch.world, batch.shape, job_seed(base_seed, prop, batch.shape, i), thorough));
+            descs.push(Desc::Gen { world: batch.world, shape: batch.shape, i });
         }
     }
     let w = workers();
     let mut enumerated: Vec<serde_json::Value> = vec![];
+    let mut bases: Vec<Job> = vec![];
     if prop == "C18" {
         /* crash-point enumeration: for each small history, one run per mutating disk
          * call k = 1..K (K measured by an uninterrupted run of the same plan) */
         let nh = ((if thorough { 400.0 } else { 16.0 }) * scale).ceil() as u64;
-        let bases: Vec<Job> = (0..nh).map(|i| make_job("A", "cp-history", job_seed(base_seed, prop, "cp-history", i), thorough)).collect();
+        bases = (0..nh).map(|i| make_job("A", "cp-history", job_seed(base_seed, prop, "cp-history", i), thorough)).collect();
         let base_outs = run_jobs(&bases, w, false, |_, _| {});
         for (i, o) in base_outs.iter().enumerate() {
             if let (Outcome::Done(r), Job::A(p)) = (o, &bases[i]) {
                 let k_max = r.disk_calls;
                 enumerated.push(serde_json::json!({"seed": p.seed, "image": p.image.as_ref().map(|x| format!("{:?}", x).chars().take(40).collect::<String>()), "steps": p.steps.len(), "disk_calls_K": k_max, "crash_points_run": k_max}));
                 for k in 1..=k_max {
-                    let mut q = p.clone();
-                    q.crash_at_total = Some(k);
-                    q.shape = "crashpoint".into();
-                    jobs.push(Job::A(q));
+                    descs.push(Desc::Crash { base: i, k });
                 }
             }
         }
     }
+    let materialise = |d: &Desc| -> Job {
+        match d {
+            Desc::Gen { world, shape, i } => make_job(world, shape, job_seed(base_seed, prop, shape, *i), thorough),
+            Desc::Crash { base, k } => {
+                let Job::A(p) = &bases[*base] else { unreachable!() };
+                let mut q = p.clone();
+                q.crash_at_total = Some(*k);
+                q.shape = "crashpoint".into();
+                Job::A(q)
+            }
+        }
+    };
     /* determinism self-test: a sample of this check's own seeds is executed a second
      * time in other children (at another worker count); the complete event-log hash,
      * event count and violations must be identical */
-    let mut det = serde_json::json!({});
+    let det;
     {
         let per = if thorough { 300 } else { 24 };
         let mut sample: Vec<Job> = vec![];
         let mut off = 0usize;
-        for batch in &bs {
-            let n = ((if thorough { batch.thorough } else { batch.quick }) as f64 * scale).ceil() as usize;
-            sample.extend(jobs[off..off + n.min(per)].iter().cloned());
+        for n in &batch_sizes {
+            sample.extend(descs[off..off + (*n).min(per)].iter().map(&materialise));
             off += n;
         }
         let a = run_jobs(&sample, w, false, |_, _| {});
@@ -162,22 +179,28 @@ pub fn run_check(prop: &str, tier: &str, base_seed: u64, verif_dir: &str) -> i32
         }
     }
     let mut sum = BatchSummary::new();
-    let outs = run_jobs(&jobs, w, false, |_, _| {});
-    for (i, o) in outs.iter().enumerate() {
-        sum.add(i, &jobs[i], o);
-    }
-    for (i, j) in jobs.iter().enumerate() {
-        if sum.samples.len() >= 3 {
-            break;
-        }
-        if let Outcome::Done(r) = &outs[i] {
-            if r.nontrivial {
-                sum.samples.push(sample_of(j));
+    let mut first_job: BTreeMap<String, Job> = BTreeMap::new();
+    let mut done = 0usize;
+    for chunk in descs.chunks(8192) {
+        let jobs: Vec<Job> = chunk.iter().map(&materialise).collect();
+        let outs = run_jobs(&jobs, w, false, |_, _| {});
+        for (i, o) in outs.iter().enumerate() {
+            sum.add(done + i, &jobs[i], o);
+            for v in outcome_violations(&jobs[i], o) {
+                first_job.entry(v.kind.clone()).or_insert_with(|| jobs[i].clone());
+            }
+            if sum.samples.len() < 3 {
+                if let Outcome::Done(r) = o {
+                    if r.nontrivial {
+                        sum.samples.push(sample_of(&jobs[i]));
+                    }
+                }
             }
         }
+        done += jobs.len();
     }
     if sum.samples.is_empty() {
-        sum.samples.push(sample_of(&jobs[0]));
+        sum.samples.push(sample_of(&materialise(&descs[0])));
     }
 
     /* triage the violations of *this* property */
@@ -197,7 +220,8 @@ pub fn run_check(prop: &str, tier: &str, base_seed: u64, verif_dir: &str) -> i32
         }
         violations += 1;
         exit = 1;
-        let small = minimise(&jobs[idx], &kind, if thorough { 120 } else { 40 }, w);
+        let _ = idx;
+        let small = minimise(&first_job[&kind], &kind, if thorough { 120 } else { 40 }, w);
         let final_out = run_jobs(&[small.clone()], 1, false, |_, _| {});
         let (detail, hash) = match &final_out[0] {
             Outcome::Done(r) => (r.violations.iter().find(|x| x.kind == kind).map(|x| x.detail.clone()).unwrap_or(v.detail.clone()), r.event_hash.clone()),
